@@ -86,6 +86,16 @@ bool h_named(const std::string &name, Case &c) {
     hwloc_topology_insert_group_object(t, g); require_wf(c, t, "after dont_merge group insertion");
     hwloc_topology_destroy(t); return true;
   }
+  if (name == "F-C02-g") {   // two dont_merge Groups with identical sets and different kinds became siblings, the second one childless
+    c.desc("synthetic l1:2 pu:2; insert Group(cpuset of PU#2, dont_merge, kind 0 subkind 2) then Group(same cpuset, dont_merge, kind 2)");
+    hwloc_topology_t t = load_syn("l1:2 pu:2"); hwloc_obj_t pu = hwloc_get_obj_by_type(t, HWLOC_OBJ_PU, 2);
+    hwloc_obj_t g = hwloc_topology_alloc_group_object(t); g->cpuset = hwloc_bitmap_dup(pu->cpuset); g->attr->group.dont_merge = 1; g->attr->group.subkind = 2;
+    hwloc_obj_t r1 = hwloc_topology_insert_group_object(t, g); CHECK(c, r1 && r1->type == HWLOC_OBJ_GROUP, "named_setup", "first group not inserted"); require_wf(c, t, "after the first group");
+    pu = hwloc_get_obj_by_type(t, HWLOC_OBJ_PU, 2); g = hwloc_topology_alloc_group_object(t); g->cpuset = hwloc_bitmap_dup(pu->cpuset); g->attr->group.dont_merge = 1; g->attr->group.kind = 2;
+    hwloc_obj_t r2 = hwloc_topology_insert_group_object(t, g); CHECK(c, r2 != NULL, "named_setup", "second group rejected");
+    require_wf(c, t, "after the second dont_merge group with the same cpuset"); std::string x = export_xml(t, 0); CHECK(c, !x.empty(), "export", "export failed");
+    hwloc_topology_destroy(t); return true;
+  }
   if (name == "F-C02-e") {   // Group inserted above an object with equal cpuset that owns memory children: stale total_memory
     c.desc("synthetic pack:2 l2:2 [numa] core:1 pu:1; insert dont_merge Group with the cpuset of L2#0");
     hwloc_topology_t t = load_syn("pack:2 l2:2 [numa] core:1 pu:1"); hwloc_obj_t l2 = hwloc_get_obj_by_type(t, HWLOC_OBJ_L2CACHE, 0);
